@@ -237,10 +237,18 @@ func cmtsEquivalent(dx, dy *dumper) (string, string, bool) {
 	}
 	var ka, kb []string
 	for _, c := range a {
-		ka = append(ka, c.key())
+		if cmtStrict {
+			ka = append(ka, c.key())
+		} else {
+			ka = append(ka, c.declKey())
+		}
 	}
 	for _, c := range b {
-		kb = append(kb, c.key())
+		if cmtStrict {
+			kb = append(kb, c.key())
+		} else {
+			kb = append(kb, c.declKey())
+		}
 	}
 	if i, x, y := firstDiff(ka, kb); i >= 0 {
 		return x, y, false
@@ -255,7 +263,11 @@ func check(src []byte, v2, simplify bool) result {
 		return r
 	}
 	if k := classifyKnown(src, v2, simplify, r); k != "" {
-		r.detail = k + " (was " + r.verdict + ")"
+		old := r.detail
+		if len(old) > 140 {
+			old = old[:140]
+		}
+		r.detail = k + " (was " + r.verdict + ") " + old
 		r.verdict = "known"
 	}
 	return r
